@@ -39,6 +39,8 @@ type Engine struct {
 	externSeen    map[string]*ExternUse
 	mapInv        map[string]bool
 	decs          map[*ssa.Function]*DecSummary
+	preds         map[*ssa.Function]*PredSummary
+	hoistBusy     map[*ssa.Function]bool
 	ctxFas        map[*ssa.Function]*FuncAn
 	ctxBusy       map[*ssa.Function]bool
 	countSums     map[*ssa.Function]*CountSummary
@@ -50,7 +52,7 @@ func NewEngine(prog *ssa.Program, cg *callgraph.Graph, inModule func(*ssa.Functi
 		sums: map[*ssa.Function]*Summary{}, sumBusy: map[*ssa.Function]bool{}, writes: map[*ssa.Function]*WriteSet{},
 		extWrites: map[*ssa.Function]*WriteSet{}, fieldInv: map[*types.Var]fieldInvRes{},
 		callees: map[ssa.CallInstruction][]*ssa.Function{}, callers: map[*ssa.Function][]ssa.CallInstruction{},
-		paramMaybeNil: map[*ssa.Parameter]string{}, mapInv: map[string]bool{}, decs: map[*ssa.Function]*DecSummary{}, ctxFas: map[*ssa.Function]*FuncAn{}, ctxBusy: map[*ssa.Function]bool{}, countSums: map[*ssa.Function]*CountSummary{}}
+		paramMaybeNil: map[*ssa.Parameter]string{}, mapInv: map[string]bool{}, decs: map[*ssa.Function]*DecSummary{}, ctxFas: map[*ssa.Function]*FuncAn{}, ctxBusy: map[*ssa.Function]bool{}, countSums: map[*ssa.Function]*CountSummary{}, preds: map[*ssa.Function]*PredSummary{}, hoistBusy: map[*ssa.Function]bool{}}
 	switch goarch {
 	case "386", "arm", "mips", "mipsle", "wasm":
 		e.WordBits = 32
@@ -144,7 +146,7 @@ func (e *Engine) newFuncAn(f *ssa.Function) *FuncAn {
 		linMemo: map[ssa.Value]Lin{}, lenMemo: map[ssa.Value]Lin{}, escMemo: map[*ssa.Alloc]bool{}, canon: map[ssa.Value]ssa.Value{},
 		in: map[*ssa.BasicBlock]*State{}, out: map[*ssa.BasicBlock]*State{}, elemLenMemo: map[ssa.Value]*Lin{}, inited: map[*Atom]bool{}, inited2: map[*Atom]bool{},
 		provers: map[*State]*prover{}, atomLoad: map[*Atom]*ssa.UnOp{},
-		loadSnap: map[*ssa.UnOp]map[string]ssa.Value{}, callSnap: map[*ssa.Call]map[string]ssa.Value{}}
+		loadSnap: map[*ssa.UnOp]map[string]ssa.Value{}, callSnap: map[*ssa.Call]map[string]ssa.Value{}, callVer: map[*ssa.Call]map[string]string{}}
 }
 
 // Analyze runs (once) the intraprocedural analysis of f.
@@ -336,8 +338,13 @@ func (a *FuncAn) check(b *ssa.BasicBlock, goals []Goal) (bool, string) {
 	if a.in[b] == nil {
 		return true, "block unreachable under the dominating facts"
 	}
+	hoisted := ""
 	for _, g := range goals {
 		if !a.Entails(b, g.L) {
+			if why, ok := a.hoist(g.L); ok {
+				hoisted = why
+				continue
+			}
 			if DebugAllFacts {
 				for _, f := range a.proverFor(a.in[b]).facts {
 					fmt.Println("DEBUG prover fact:", f.String(), ">= 0")
@@ -355,6 +362,9 @@ func (a *FuncAn) check(b *ssa.BasicBlock, goals []Goal) (bool, string) {
 				all = Add(all, AtomLin(t.a), 1)
 			}
 		}
+	}
+	if hoisted != "" {
+		return true, strings.Join(ts, ", ") + " (" + hoisted + ")"
 	}
 	if len(all.t) == 0 {
 		return true, strings.Join(ts, ", ") + " (constant)"
